@@ -35,6 +35,7 @@ import ScalesModel.Adapter.ResPool
 import ScalesModel.Adapter.HeapC09
 import ScalesModel.Adapter.ApertureHeap
 import ScalesModel.Adapter.ResMux
+import ScalesModel.Adapter.ThriftShared
 open Scales
 
 def components : List Comp := [
@@ -71,7 +72,8 @@ def components : List Comp := [
   ⟨"heap9", Scales.Heap.comp9.run⟩,
   ⟨"aperture3", Scales.LB.comp3A.run⟩,
   ⟨"aperture4", Scales.LB.comp4A.run⟩,
-  ⟨"resmux", Scales.ResMux.comp.run⟩
+  ⟨"resmux", Scales.ResMux.comp.run⟩,
+  ⟨"thriftshared", Scales.ThriftShared.comp.run⟩
 ]
 
 structure CaseAcc where
